@@ -40,6 +40,9 @@ CHECKS = {
  "C16": ("fault_enumeration", "SIGKILL injection into writer child processes at PRNG-chosen points; fresh verifier process checks every acknowledged id",
          "Writer children stream unique (cycle,seq,version) VAAs of 100 B..256 KiB (with overwrites) into one badger directory through the real db.StoreSignedVAA and acknowledge each on a pipe; the parent SIGKILLs them after the k-th ACK + delay, right after a BEGIN, during open, or kills the verifier during its own reopen; after every kill a fresh process reopens the directory and looks up every id of all cycles: acknowledged => exact bytes of the acknowledged (or a later begun) version, unacknowledged => not-found or exact bytes, never anything else; reopen must succeed.",
          "Process kill only (page cache survives), as the property states; kill points are sampled, not enumerated at instruction granularity.", "3/C16"),
+ "C18": ("exploration", "instrumented-service trace monitor over generated supervision trees (public API), bounded-progress oracle, race detector",
+         "Random trees (depth <= 3, <= 22 services, multi-member groups) whose services follow per-incarnation scripts (fail by error / nil / panic before or after signalling healthy, then wait-and-linger or signal done) run 16 at a time under -race. Per-name atomic running counters assert that no service runs twice at once (checked at entry); the event log is checked for: group siblings cancelled after a failure, restart not before the minimum back-off, done services re-entered only with a cause in their restart cone, bounded progress (all scripted failures are finite, so within 40 s every waiting service runs exactly once and every done service is done - otherwise a violation with a dump of the supervisor goroutines), and after cancelling the supervisor context every instance exits and nothing starts again. A panic inside the supervisor's own goroutine kills the monitor process; the driver reports that as a violation with the crashing stack.",
+         "Liveness restated as bounded progress (40 s bound vs < 5 s of reachable back-off).", "3/C18"),
  "C20": ("exploration", "trace monitor over fake gRPC streams with gated Send; fault injection (stall / disconnect) at generated points; blocked-Publish watchdog with structural witness; race detector",
          "The real spyServer (hook) serves 1-8 fake subscriber streams with 0-3 filters; the sequence each reading subscriber received must equal the published VAAs matching its filters, in publish order. At a generated point one subscriber stalls in Send forever, disconnects cleanly, or disconnects with a backlog; afterwards every Publish must return, the other subscribers must receive everything, and subscriptions must still register and be removed. A blocked Publish is reported only with a structural witness (goroutine parked in chan send inside spy.go while the subscription mutex is unavailable at two instants). Known finding F14 (stalled / departed subscriber blocks Publish under the mutex) is matched by class and reported as KNOWN-FINDING.",
          "Fake in-process streams, no TCP transport; -race.", "3/C20"),
